@@ -8,7 +8,7 @@ from hypothesis import strategies as st
 from vlib.runner import Violation, sut
 
 ID = "C17"
-BUDGET = {"quick": 3200, "thorough": 60000}
+BUDGET = {"quick": 3200, "thorough": 200000}
 RULE = ("Generated: 1..5 symbolic tensor parameters with drawn shape (rank 1..3, dims 1..5), data type (integer / real / "
         "complex), learnable flag and initialiser (constant scalar, constant array incl. broadcastable ones, "
         "Uniform(a,b), Normal(mu,sigma), Dirichlet(alpha scalar or list, axis in -rank..rank-1)), several of them "
